@@ -11,6 +11,9 @@
 (*                                               NfRipple, NoMemory, PoutReported, OutOfBand)                       *)
 (*   "Sweep"  NF of one amplifier type over increasing gains (C04: NfMinAtFlatMax, NfMaxAtGainMin, NonIncreasing,    *)
 (*                                               NonIncreasingExtended, ClampAboveMax, DualCascade, DbForDbBelowMin)*)
+(*   "Curve" / "NfCurve"  the configured NF curve of an amplifier type (uniform table) and observations of its reported   *)
+(*            NF at given loads / gains (C04: NfFollowsModel - OpenROADM ILA polynomial and preamp mask read at the input  *)
+(*            power per 50 GHz slot, polynomial model read at the gain deficit)                                           *)
 (*   "Fiber"  one fibre crossing           (C05: LossBudget, NoMemory, ContribFromConfig + the accumulation clauses)*)
 (*   "Acc"    accumulators around a ROADM / amplifier crossing (C05: CdLinear, LatencyLinear, PmdQuadrature, ...)    *)
 (*   "End"    final accumulators of one ordering of a set of elements (C05: OrderIndependent, against the first      *)
@@ -26,10 +29,12 @@ Tol        == 3           \* exact laws: float noise is ~1e-9 udB, integer round
 TolNoAmp   == 1           \* out <= in: only the rounding of the two sides
 TolTilt    == 50000       \* GainLaw with tilt or ripple on a non-flat input comb (three-point solver), 50 mdB
 TolNfEnd   == 11000       \* nf(flatMax) = nfMin, nf(gainMin) = nfMax: the loader accepts 10 mdB, + 1 mdB
+TolCurve   == 30          \* NF against the configured curve: table interpolation (0.02 dB grid) <= 2 udB + roundings
 TolLin     == 10          \* linear NF x 1e6 (values ~5e6): 2 ppm, i.e. ~9 udB; rounding of three terms <= 1.5
 TolAcc     == 3           \* 1e-3 ps/nm, ns, fs^2, mdB^2
 TolPmdCfg  == 30          \* fs^2: pmd_coef^2 x length against (pmd_coef x sqrt(length))^2, relative float noise on ~1e6 fs^2
 TolRamanLow  == 2000      \* LowPower / LumpedOnce / PumpsOnlyAddGain: 2 mdB (measured 6e-8 dB at -60 dBm per channel)
+TolMethodsFine == 12000   \* MethodsAgree without pumps against the numerical method at a 2 m step: 12 mdB (measured 1.1 mdB)
 TolMethods   == 40000     \* MethodsAgree without pumps: 40 mdB          (measured 3.0 mdB: perturbative 2 @50 m vs numerical @10 m)
 TolMethodsPumped == 400000 \* MethodsAgree with counter-propagating pumps: 0.4 dB (measured 32 mdB, iterative scheme @50 m vs @10 m)
 
@@ -89,17 +94,20 @@ RamanClauses(e) ==
      [] e.k = "LumpedOnce" -> Fails("LumpedOnce", \A j \in 1..Len(e.ch) : Within(e.ch[j].a, e.ch[j].b + e.lumped, TolRamanLow))
      [] e.k = "PumpsOnlyAddGain" -> Fails("PumpsOnlyAddGain", \A j \in 1..Len(e.ch) : e.ch[j].a <= e.ch[j].b + TolRamanLow)
      [] e.k = "MethodsAgree" -> Fails("MethodsAgree", \A j \in 1..Len(e.ch) :
-                                         Within(e.ch[j].a, e.ch[j].b, IF e.pumped = 1 THEN TolMethodsPumped ELSE TolMethods))
+                                         Within(e.ch[j].a, e.ch[j].b, IF e.pumped = 1 THEN TolMethodsPumped
+                                                                      ELSE IF e.fine = 1 THEN TolMethodsFine ELSE TolMethods))
 
-StepClauses(e, r) ==
+StepClauses(e, r, first) ==
    CASE e.k = "Roadm" -> RoadmClauses(e)
      [] e.k = "Edfa"  -> EdfaClauses(e)
      [] e.k = "Sweep" -> SweepClauses(e)
      [] e.k = "Fiber" -> Fails("LossBudget", FiberLossBudget(e, Tol)) \cup Fails("NoMemory", FiberNoMemory(e, Tol))
                          \cup (IF e.acc = 1 THEN AccClauses(e) \cup Fails("ContribFromConfig", FiberContribFromConfig(e, TolAcc, TolPmdCfg))
                               ELSE {})
-     [] e.k = "Acc"   -> AccClauses(e) \cup Fails("RoadmContribFromConfig", RoadmContribFromConfig(e, TolPmdCfg))
+     [] e.k = "Acc"   -> AccClauses(e) \cup Fails("ElementContribFromConfig", ElementContribFromConfig(e, TolPmdCfg))
      [] e.k = "End"   -> EndClauses(e, r)
+     [] e.k = "Curve" -> {}                                  \* the configured curve of the trace's amplifier (first event)
+     [] e.k = "NfCurve" -> Fails("NfFollowsModel", first.k = "Curve" /\ NfFollowsModel(e, first.tab, TolCurve))
      [] e.k \in {"LowPower", "LumpedOnce", "PumpsOnlyAddGain", "MethodsAgree"} -> RamanClauses(e)
      [] OTHER -> {"UnknownEvent"}
 
@@ -112,7 +120,7 @@ Next == /\ i < Len(T[tid].ev)
         /\ i' = i + 1
         /\ tid' = tid
         /\ LET e == T[tid].ev[i + 1]
-           IN /\ viol' = viol \cup {<<i + 1, c>> : c \in StepClauses(e, ref)}
+           IN /\ viol' = viol \cup {<<i + 1, c>> : c \in StepClauses(e, ref, T[tid].ev[1])}
               /\ ref' = IF e.k = "End" /\ ~ref.set
                         THEN [set |-> TRUE, cd |-> e.cd, lat |-> e.lat, pmd |-> e.pmd, pdl |-> e.pdl, loss |-> e.loss]
                         ELSE ref
